@@ -39,6 +39,11 @@ def run(ctx: Ctx) -> int:
     # a correlated-error chain followed by another channel before the chain is finalized (bit numbering of the chain is fixed at the finalize)
     corpus = ["RY 4\nT_DAG 4\nSQRT_Y 4 4\nH_YZ 4\nE(0.25) X4\nH_XZ 4\nT 4\nDEPOLARIZE1(0.125) 4\nH_XY 4 4\nMY 4\nDETECTOR rec[-1]",
                "H 0\nE(0.25) X0\nELSE_CORRELATED_ERROR(0.5) Z0\nX_ERROR(0.125) 0\nM 0\nE(0.5) X0\nZ_ERROR(0.25) 0\nMX 0\nDETECTOR rec[-1] rec[-2]\nOBSERVABLE_INCLUDE(0) rec[-1]"] + corpus
+    # a measurement that no annotation reads still collapses the state (detector sampler): unread mid-circuit measurements followed by
+    # non-commuting gates and a measurement that IS read; unread measurements whose references cancel; unread MR
+    corpus = ["H 0\nM 0\nH 0\nM 0\nDETECTOR rec[-1]", "H 0\nT 0\nH 0\nM 0\nH 0\nT 0\nH 0\nM 0\nOBSERVABLE_INCLUDE(0) rec[-1]",
+              "H 0\nCX 0 1\nM 1\nH 0\nM 0\nDETECTOR rec[-1]", "H 0\nM 0\nDETECTOR rec[-1] rec[-1]\nH 0\nM 0\nDETECTOR rec[-1]",
+              "RX 0\nMY 0\nMX 0\nM 0\nDETECTOR rec[-2]\nOBSERVABLE_INCLUDE(1) rec[-1]", "H 0\nMR 0\nH 0\nM 0\nM 0\nDETECTOR rec[-1] rec[-2]\nDETECTOR rec[-1]"] + corpus
     # more than ten observables, declared out of order with a gap (indices with two digits; index 5 never declared)
     obs_order = [3, 11, 0, 10, 7, 1, 9, 2, 8, 4, 6]
     corpus.append("X 0 2 3 7 10\nM 0 1 2 3 4 5 6 7 8 9 10 11\n" + "\n".join(f"OBSERVABLE_INCLUDE({k}) rec[-{12 - k}]" for k in obs_order) + "\nDETECTOR rec[-1] rec[-12]")
